@@ -10124,6 +10124,14 @@ class WBEMConnection:  # pylint: disable=too-many-instance-attributes
         stats = self.statistics.start_timer(method_name)
         try:
 
+            if isinstance(NewIndication, CIMInstance) and \
+                    NewIndication.path is not None:
+                # Strip off path to avoid producing a VALUE.NAMEDINSTANCE
+                # (or similar) element instead of the INSTANCE element that
+                # is the only one allowed in EXPPARAMVALUE.
+                NewIndication = NewIndication.copy()
+                NewIndication.path = None
+
             self._iexportcall(
                 method_name,
                 NewIndication=NewIndication)
